@@ -462,6 +462,16 @@ async fn user_state_process(main_state: Arc<MainState>, stream: DualTcpStream, a
     }
 }
 
+// entry point of the verification harness: serve one connection over an in-memory stream.
+#[cfg(sirc_verif)]
+pub(crate) async fn verif_serve_mem(
+    main_state: Arc<MainState>,
+    stream: tokio::io::DuplexStream,
+    addr: SocketAddr,
+) {
+    user_state_process(main_state, DualTcpStream::Mem(stream), addr).await
+}
+
 #[cfg(feature = "tls_rustls")]
 async fn user_state_process_tls(
     main_state: Arc<MainState>,
